@@ -131,6 +131,10 @@ def spaces(tier, seed):
                                           "form": FORMS, "aware": [None, True], "tzenv": ["UTC"]},
                       note="instants around every clock change of the zone itself in %s (wall times in the gap or the repeated hour are skipped for the "
                            "forms that write a wall time; the timestamp form writes the instant)" % (DST_YEARS,)))
+    sp.append(Product("relative-with-aware-base", {"X": [0, -180, 330, 540], "A": [None, "UTC", "Asia/Kolkata", "+0500", "Asia/Tokyo"],
+                                                   "B": [None, "UTC", "Asia/Kolkata", "+0500", "Asia/Tokyo", "-0800"], "w": [0, 5, 11],
+                                                   "ph": ["in 2 hours", "1 day ago", "yesterday 8:30", "in 1 month"], "aware": AWARE, "tzenv": ["UTC"]},
+                      note="RELATIVE_BASE is zone-aware (fixed offset X minutes): the arithmetic is done on the base's own wall clock, TO_TIMEZONE re-expresses the result's instant"))
     sp.append(Product("custom-format-with-%z", {"A": [None, "UTC", "America/New_York", "Asia/Kolkata", "+0300"], "B": [None, "UTC", "Asia/Tokyo", "-0800"],
                                                 "z": ["+0000", "+0530", "-0800", "+1400", "-0330", "+0100"], "w": [0, 5, 11],
                                                 "zf": ["%Y-%m-%d %H:%M:%S %z", "%z %d/%m/%Y %H.%M.%S", "%d %B %Y %I:%M:%S %p (%z)"], "aware": AWARE, "tzenv": ["UTC"]},
@@ -210,9 +214,53 @@ def _run_z(sub, c):
                          "detail": {"string": s, "settings": st, "date_formats": [c["zf"]]}}
 
 
+def _run_aware_base(sub, c):
+    from ..refmodel import relative
+    W = LOCALS[c["w"]]
+    zx = pytz.FixedOffset(c["X"])
+    base = zx.localize(W)
+    parts, sign, clockv = {"in 2 hours": ([(2, "hour")], 1, None), "1 day ago": ([(1, "day")], -1, None), "yesterday 8:30": ([(1, "day")], -1, (8, 30)),
+                           "in 1 month": ([(1, "month")], 1, None)}[c["ph"]]
+    wall = relative.shift(W, parts, sign)
+    if clockv:
+        wall = wall.replace(hour=clockv[0], minute=clockv[1], second=0, microsecond=0)
+    res = zx.localize(wall)                      # the result in the base's own zone
+    A, B, aware = c["A"], c["B"], c["aware"]
+    st = {"RELATIVE_BASE": base}
+    if A is not None:
+        st["TIMEZONE"] = A
+    if B is not None:
+        st["TO_TIMEZONE"] = B
+    if aware is not None:
+        st["RETURN_AS_TIMEZONE_AWARE"] = aware
+    e = res.astimezone(ref_zone(B)) if B else res
+    exp_wall, exp_off = e.replace(tzinfo=None), e.utcoffset()
+    exp_aware = aware is True
+    o = api.outcome_of(api.gdd, c["ph"], ["en"], None, None, st)
+    if o[0] == "exc":
+        got, prob = o[1:], "exception " + o[1]
+    else:
+        r = got = o[1].date_obj
+        if r is None:
+            prob = "no result"
+        elif (r.tzinfo is not None) != exp_aware:
+            prob = "awareness"
+        elif r.replace(tzinfo=None) != exp_wall:
+            prob = "wall clock"
+        elif r.tzinfo is not None and r.utcoffset() != exp_off:
+            prob = "utc offset"
+        else:
+            return "ok", True, None
+    return "bad", True, {"cls": {"form": "relative-with-aware-base", "sub": sub, "aware_setting": aware, "problem": prob, "same_zone_twice": A is not None and A == B},
+                         "expected": {"wall": exp_wall, "offset": exp_off, "aware": exp_aware}, "observed": got,
+                         "detail": {"string": c["ph"], "settings": st}}
+
+
 def _run(sub, c):
     if sub == "custom-format-with-%z":
         return _run_z(sub, c)
+    if sub == "relative-with-aware-base":
+        return _run_aware_base(sub, c)
     A, B, form, aware = c["A"], c["B"], c["form"], c["aware"]
     if sub == "dst-transitions":
         tr = transitions(A)
